@@ -1,8 +1,38 @@
 package main
 
 import (
+	"flag"
 	"fmt"
-	"golang.org/x/tools/go/packages"
+	"os"
+
+	"govc/eng"
 )
 
-func main() { fmt.Println(packages.NeedTypes) }
+func main() {
+	if len(os.Args) < 2 {
+		fmt.Fprintln(os.Stderr, "usage: govc check|lock|list|dump ...")
+		os.Exit(2)
+	}
+	cmd := os.Args[1]
+	fs := flag.NewFlagSet(cmd, flag.ExitOnError)
+	repo := fs.String("repo", "/repo", "repository root")
+	verif := fs.String("verif", "/verif", "verification directory")
+	prop := fs.String("prop", "", "property id")
+	tier := fs.String("tier", "quick", "quick|thorough")
+	only := fs.String("func", "", "restrict to functions whose name contains this")
+	timeout := fs.Int("timeout", 0, "solver timeout (s)")
+	verbose := fs.Bool("v", false, "verbose")
+	fs.Parse(os.Args[2:])
+	cfg := eng.RunConfig{Repo: *repo, VerifDir: *verif, Prop: *prop, Tier: *tier, OnlyFunc: *only, Timeout: *timeout, Verbose: *verbose}
+	switch cmd {
+	case "check":
+		os.Exit(eng.CmdCheck(cfg))
+	case "lock":
+		os.Exit(eng.CmdLock(cfg))
+	case "dump":
+		os.Exit(eng.CmdDump(cfg))
+	default:
+		fmt.Fprintln(os.Stderr, "unknown command", cmd)
+		os.Exit(2)
+	}
+}
